@@ -66,6 +66,10 @@ structure NamespaceJsonOk (d : Namespace) : Prop where
   parentsSorted : ∀ e ∈ d.entities, sortStrs e.2.parents = e.2.parents
   enumsNonEmpty : ∀ e ∈ d.enums, e.2.values ≠ []
   noClash : ∀ e ∈ d.entities, ∀ en ∈ d.enums, en.1 ≠ e.1
+  /-- every name is one the Cedar grammar allows where it stands (stated on the JSON form, where `checkNames` runs):
+      entity / common type names are identifiers, common type names are not reserved, type references are paths,
+      annotation keys are identifier-shaped -/
+  names : checkNames (marshalNamespace d) = true
 
 theorem filter_eq_self_of_forall {α} (p : α → Bool) : ∀ (l : List α), (∀ x ∈ l, p x = true) → l.filter p = l
   | [], _ => rfl
@@ -77,10 +81,24 @@ theorem filter_eq_nil_of_forall {α} (p : α → Bool) : ∀ (l : List α), (∀
   | a :: l, h => by
     simp [List.filter_cons, h a (by simp), filter_eq_nil_of_forall p l (fun x hx => h x (by simp [hx]))]
 
-theorem unmarshal_marshalNamespace (d : Namespace) (hd : NamespaceJsonOk d) :
-    unmarshalNamespace (marshalNamespace d) = .ok d := by
+theorem marshalNamespace_no_empty_enum (d : Namespace) (h2 : ∀ e ∈ d.enums, e.2.values ≠ []) :
+    (marshalNamespace d).entityTypes.any (fun e => e.2.enum == some []) = false := by
+  unfold marshalNamespace
+  simp only
+  rw [List.any_eq_false]
+  intro x hx
+  rcases List.mem_append.mp hx with hx | hx
+  · obtain ⟨e, _, rfl⟩ := List.mem_map.mp hx
+    simp [marshalEntity]
+  · obtain ⟨e, he, rfl⟩ := List.mem_map.mp hx
+    have := h2 e he
+    simpa [marshalEnum] using this
+
+theorem unmarshalCore_marshalNamespace (d : Namespace) (hd : NamespaceJsonOk d) :
+    unmarshalNamespaceCore (marshalNamespace d) = .ok d := by
   obtain ⟨anns, entities, enums, actions, commonTypes⟩ := d
-  obtain ⟨h1, h2, h3⟩ := hd
+  obtain ⟨h1, h2, h3, hnames⟩ := hd
+  clear hnames
   simp only at h1 h2 h3
   have hfilt : (entities.filter fun e => !enums.any (fun en => en.1 == e.1)) = entities := by
     apply filter_eq_self_of_forall
@@ -98,55 +116,53 @@ theorem unmarshal_marshalNamespace (d : Namespace) (hd : NamespaceJsonOk d) :
     intro x _
     simp [unmarshal_marshalAction, bind, Except.bind]
   have hsplit1 : ((entities.map fun e => (e.1, marshalEntity e.2)) ++ enums.map fun e => (e.1, marshalEnum e.2)).filter
-      (fun e => e.2.enum.isEmpty) = entities.map fun e => (e.1, marshalEntity e.2) := by
+      (fun e => e.2.enum.isNone) = entities.map fun e => (e.1, marshalEntity e.2) := by
     rw [List.filter_append, filter_eq_self_of_forall, filter_eq_nil_of_forall, List.append_nil]
     · intro x hx
       obtain ⟨e, he, rfl⟩ := List.mem_map.mp hx
-      have := h2 e he
-      simp only [marshalEnum]
-      cases hv : e.2.values with
-      | nil => exact absurd hv this
-      | cons _ _ => rfl
+      simp [marshalEnum]
     · intro x hx
       obtain ⟨e, _, rfl⟩ := List.mem_map.mp hx
       simp [marshalEntity]
-  have hsplit2 : ((entities.map fun e => (e.1, marshalEntity e.2)) ++ enums.map fun e => (e.1, marshalEnum e.2)).filter
-      (fun e => !e.2.enum.isEmpty) = enums.map fun e => (e.1, marshalEnum e.2) := by
-    rw [List.filter_append, filter_eq_nil_of_forall, filter_eq_self_of_forall, List.nil_append]
-    · intro x hx
-      obtain ⟨e, he, rfl⟩ := List.mem_map.mp hx
-      have := h2 e he
-      simp only [marshalEnum]
-      cases hv : e.2.values with
-      | nil => exact absurd hv this
-      | cons _ _ => rfl
-    · intro x hx
+  have hsplit2 : ((entities.map fun e => (e.1, marshalEntity e.2)) ++ enums.map fun e => (e.1, marshalEnum e.2)).filterMap
+      (fun e => e.2.enum.map fun vs => (e.1, ({ anns := e.2.anns, values := vs } : Enum))) = enums := by
+    rw [List.filterMap_append]
+    have e1 : (entities.map fun e => (e.1, marshalEntity e.2)).filterMap
+        (fun e => e.2.enum.map fun vs => (e.1, ({ anns := e.2.anns, values := vs } : Enum))) = [] := by
+      rw [List.filterMap_eq_nil_iff]
+      intro x hx
       obtain ⟨e, _, rfl⟩ := List.mem_map.mp hx
       simp [marshalEntity]
+    have e2 : (enums.map fun e => (e.1, marshalEnum e.2)).filterMap
+        (fun e => e.2.enum.map fun vs => (e.1, ({ anns := e.2.anns, values := vs } : Enum))) = enums := by
+      clear h2 h3 hfilt hsplit1 e1
+      induction enums with
+      | nil => rfl
+      | cons e es ih => simp [marshalEnum] at ih ⊢; exact ih
+    rw [e1, e2, List.nil_append]
   have hents : (entities.map fun e => (e.1, marshalEntity e.2)).mapM
       (fun e => do let x ← unmarshalEntity e.2; Except.ok (e.1, x)) = .ok entities := by
     apply mapM_map_roundtrip
     intro x hx
     simp [unmarshal_marshalEntity x.2 (h1 x hx), bind, Except.bind]
-  have henums : (enums.map fun e => (e.1, marshalEnum e.2)).map
-      (fun e => (e.1, ({ anns := e.2.anns, values := e.2.enum } : Enum))) = enums := by
-    rw [List.map_map]
-    conv => rhs; rw [← List.map_id enums]
-    apply List.map_congr_left
-    intro e _
-    simp [marshalEnum]
-  unfold unmarshalNamespace marshalNamespace
+  unfold unmarshalNamespaceCore marshalNamespace
   simp only [hfilt, hsplit1, hsplit2, bind, Except.bind] at hcts hacts hents ⊢
-  rw [hcts, hents, hacts, henums]
+  rw [hcts, hents, hacts]
+
+theorem unmarshal_marshalNamespace (d : Namespace) (hd : NamespaceJsonOk d) :
+    unmarshalNamespace (marshalNamespace d) = .ok d := by
+  unfold unmarshalNamespace
+  simp only [hd.names, marshalNamespace_no_empty_enum d hd.enumsNonEmpty, Bool.not_true, Bool.false_eq_true, if_false]
+  exact unmarshalCore_marshalNamespace d hd
 
 /-! ### JSON: the schema -/
 
 structure SchemaJsonOk (s : Schema) : Prop where
   bare : NamespaceJsonOk s.bare
   bareAnns : s.bare.anns = []
-  nss : ∀ nd ∈ s.namespaces, NamespaceJsonOk nd.2 ∧ nd.1 ≠ ""
+  nss : ∀ nd ∈ s.namespaces, NamespaceJsonOk nd.2 ∧ nd.1 ≠ "" ∧ isPathJ nd.1 = true
 
-theorem unmarshal_marshalSchema (s : Schema) (h : SchemaJsonOk s) : unmarshalSchema (marshalSchema s) = .ok s := by
+theorem unmarshalCore_marshalSchema (s : Schema) (h : SchemaJsonOk s) : unmarshalSchemaCore (marshalSchema s) = .ok s := by
   obtain ⟨bare, namespaces⟩ := s
   obtain ⟨hb, ha, hn⟩ := h
   simp only at hb ha hn
@@ -156,13 +172,13 @@ theorem unmarshal_marshalSchema (s : Schema) (h : SchemaJsonOk s) : unmarshalSch
     subst ha
     rfl
   have hfilter : namespaces.filter (fun nd => decide (nd.1 ≠ "")) = namespaces :=
-    filter_eq_self_of_forall _ _ (fun nd hnd => by simpa using (hn nd hnd).2)
+    filter_eq_self_of_forall _ _ (fun nd hnd => by simpa using (hn nd hnd).2.1)
   have hlookup : namespaces.lookup "" = none := by
     rw [List.lookup_eq_none_iff]
     intro p hp
-    have := (hn p hp).2
+    have := (hn p hp).2.1
     simpa [bne_iff_ne] using fun h : "" = p.1 => this h.symm
-  unfold unmarshalSchema marshalSchema
+  unfold unmarshalSchemaCore marshalSchema
   by_cases hbd : hasBareDecls bare = true
   · have hm : ((if hasBareDecls bare = true then [("", marshalNamespace { bare with anns := [] })] else []) ++
         namespaces.map fun nd => (nd.1, marshalNamespace nd.2)) =
@@ -195,5 +211,98 @@ theorem unmarshal_marshalSchema (s : Schema) (h : SchemaJsonOk s) : unmarshalSch
       rw [this]
     · intro x hx
       simp [unmarshal_marshalNamespace _ (hn x hx).1, bind, Except.bind]
+
+theorem unmarshal_marshalSchema (s : Schema) (h : SchemaJsonOk s) : unmarshalSchema (marshalSchema s) = .ok s := by
+  have hkeys : (marshalSchema s).any (fun nd => nd.1 ≠ "" && !isPathJ nd.1) = false := by
+    rw [List.any_eq_false]
+    intro x hx
+    unfold marshalSchema at hx
+    rcases List.mem_append.mp hx with hx | hx
+    · split at hx
+      · simp only [List.mem_cons, List.not_mem_nil, or_false] at hx
+        subst hx
+        simp
+      · cases hx
+    · obtain ⟨nd, hnd, rfl⟩ := List.mem_map.mp hx
+      simp [(h.nss nd hnd).2.2]
+  unfold unmarshalSchema
+  simp only [hkeys, Bool.false_eq_true, if_false]
+  exact unmarshalCore_marshalSchema s h
+
+/-! ### text: a built-in type node is printed under a name that denotes it -/
+
+/-- nothing called `n` is visible from namespace `ns`: no common type and no entity type `n` in the empty namespace nor
+    (for `ns ≠ ""`) `ns::n` — exactly the lookups `resolveTypeRef` tries before it takes `n` as a built-in -/
+def Undeclared (r : RState) (ns n : String) : Prop :=
+  r.common? n = none ∧ r.isEntity n = false ∧
+  (ns ≠ "" → r.common? (ns ++ "::" ++ n) = none ∧ r.isEntity (ns ++ "::" ++ n) = false)
+
+instance (r : RState) (ns n : String) : Decidable (Undeclared r ns n) := by unfold Undeclared; infer_instance
+
+/-- the name under which `marshalType` writes a built-in type node -/
+def builtinTyName : Ty → Option String
+  | .string => some "String"
+  | .long => some "Long"
+  | .bool => some "Bool"
+  | .ext n => some n
+  | _ => none
+
+/-- what a built-in type NODE of the AST (`ast.StringType`, `LongType`, `BoolType`, `ExtensionType` of a known extension)
+    resolves to -/
+def builtinRTy : Ty → Option RTy
+  | .string => some .string
+  | .long => some .long
+  | .bool => some .bool
+  | .ext n => if n = "ipaddr" ∨ n = "decimal" ∨ n = "datetime" ∨ n = "duration" then some (.ext n) else none
+  | _ => none
+
+/-- a name `n` of a built-in, printed bare or with the `__cedar` namespace, looks up as that built-in -/
+theorem lookup_builtinName (r : RState) (ns : String) (sh : List String) (n : String) (rt : RTy)
+    (h1 : hasSep n = false) (h2 : hasSep ("__cedar::" ++ n) = true) (h3 : cedarSuffix ("__cedar::" ++ n) = some n)
+    (h4 : lookupBuiltin n = some rt) (hsh : n ∉ sh → Undeclared r ns n) :
+    lookupTypeRef r ns (builtinName sh n) = .builtin rt := by
+  unfold builtinName
+  by_cases hm : sh.contains n = true
+  · simp only [hm, if_true]
+    unfold lookupTypeRef
+    simp [h2, h3, h4]
+  · simp only [hm]
+    have hn : n ∉ sh := by simpa using hm
+    obtain ⟨a, b, c⟩ := hsh hn
+    unfold lookupTypeRef
+    by_cases hns : ns = ""
+    · simp [h1, a, b, hns, h4]
+    · obtain ⟨c, d⟩ := c hns
+      simp [h1, a, b, c, d, hns, h4]
+
+theorem print_builtin_reresolves (r : RState) (ns : String) (sh : List String) (indent : Nat) (t : Ty) (rt : RTy)
+    (ht : builtinRTy t = some rt) (hsh : ∀ n, builtinTyName t = some n → n ∉ sh → Undeclared r ns n) :
+    lookupTypeRef r ns (printTy sh indent t) = .builtin rt := by
+  cases t with
+  | string =>
+    simp only [builtinRTy, Option.some.injEq] at ht; subst ht
+    unfold printTy
+    exact lookup_builtinName r ns sh "String" _ (by decide +kernel) (by decide +kernel) (by decide +kernel) (by decide +kernel) (hsh _ rfl)
+  | long =>
+    simp only [builtinRTy, Option.some.injEq] at ht; subst ht
+    unfold printTy
+    exact lookup_builtinName r ns sh "Long" _ (by decide +kernel) (by decide +kernel) (by decide +kernel) (by decide +kernel) (hsh _ rfl)
+  | bool =>
+    simp only [builtinRTy, Option.some.injEq] at ht; subst ht
+    unfold printTy
+    exact lookup_builtinName r ns sh "Bool" _ (by decide +kernel) (by decide +kernel) (by decide +kernel) (by decide +kernel) (hsh _ rfl)
+  | ext n =>
+    simp only [builtinRTy] at ht
+    split at ht
+    · rename_i hn
+      simp only [Option.some.injEq] at ht; subst ht
+      unfold printTy
+      rcases hn with rfl | rfl | rfl | rfl <;>
+        exact lookup_builtinName r ns sh _ _ (by decide +kernel) (by decide +kernel) (by decide +kernel) (by decide +kernel) (hsh _ rfl)
+    · cases ht
+  | set _ => cases ht
+  | record _ => cases ht
+  | entityRef _ => cases ht
+  | typeRef _ => cases ht
 
 end CedarGo.Schema
